@@ -200,7 +200,7 @@ func smallStreams() (map[string][]byte, []string) {
 func propC10() *harness.Prop {
 	return &harness.Prop{
 		ID:             "C10",
-		Rule:           "rtcmfilter.HandleMessages (the shipped function, in-package harness) under the controlled scheduler with harness-owned stdout, record and display writers whose every Write is a scheduling point. Schedule dimension: 9 small streams x {display,record} in {0,1}^2 x every interleaving of main, reader, framing, fan-out and 1-3 writer goroutines and every source chunking (state-key pruning; deviation bound 1/2 where the unbounded pass is cut). Input dimension: every sequence of <=2 (quick) / <=3 (thorough) segments from a 19-entry menu (valid frames, NMEA, UBX, junk with 0xD3, lone D3, bad leaders, truncations, corrupted frames) with display and record on, default schedule. plus a stalled-writer scenario (twelve distinct frames, the output writer blocks in its first Write until a timer thread lets it go, by default as late as possible). Oracle at quiescence: stdout == concatenation of the valid frames of the sequential framing, record identical, display text == one String() entry per delivered message. Non-trivial = distinct schedule trace",
+		Rule:           "rtcmfilter.HandleMessages (the shipped function, in-package harness) under the controlled scheduler with harness-owned stdout, record and display writers whose every Write is a scheduling point. Schedule dimension: 9 small streams x {display,record} in {0,1}^2 x every interleaving of main, reader, framing, fan-out and 1-3 writer goroutines and every source chunking (state-key pruning; deviation bound 1/2 where the unbounded pass is cut). Input dimension: every sequence of <=2 (quick) / <=3 (thorough) segments from a 19-entry menu (valid frames, NMEA, UBX, junk with 0xD3, lone D3, bad leaders, truncations, corrupted frames) with display and record on, default schedule. plus scenarios in which single writes to the display log fail, and a stalled-writer scenario (24 distinct frames, the output writer blocks in its first Write until a timer thread lets it go, by default as late as possible). Oracle at quiescence: stdout == concatenation of the valid frames of the sequential framing, record identical, display text == one String() entry per delivered message. Non-trivial = distinct schedule trace",
 		Assumptions:    []string{"dailylogger.New is redirected at build time to an in-memory sink (file naming and rotation belong to the go-tools dependency)", "which segments are 'valid frames as delimited by the framing rules' is taken from the implementation's own sequential framing filtered by the independent IsFrame predicate (differential oracle), as the statement defines", "judged at quiescence; whether the output is complete when the call returns is C11"},
 		Scenarios:      scenariosC10,
 		QuickBudget:    60 * time.Second,
@@ -264,14 +264,53 @@ func scenariosC10(tier string) []*mcrt.Scenario {
 		scs = append(scs, &mcrt.Scenario{Name: fmt.Sprintf("input=%dB default-schedule", n), DefaultOnly: true, Horizon: 4000000,
 			Body: body(bs, false, true, false, []int{0}), Check: checkC10(bs)})
 	}
-	// a writer that stalls while input keeps flowing: twelve distinct frames
+	// a write to the readable display log fails (any single write, one deviation
+	// each): that must cost the log an entry, never the RTCM output
+	for _, sn := range []string{"frame+frame", "frame+junk+frame"} {
+		stream := streams[sn]
+		scs = append(scs, &mcrt.Scenario{Name: "display-log-write-error stream=" + sn, Bound: 2, Horizon: 50000, Prune: true,
+			Body: func(x *mcrt.X) {
+				obs := &obsT{out: &hsink.Sink{Name: "stdout"}, sinks: &hsink.Sinks{MayFailTrailer: ".txt"},
+					src: &hsink.ChunkReader{Data: stream, Reset: true, Sizes: []int{0}}, display: true, record: true}
+				x.Data = obs
+				mcrt.NewDailySink = obs.sinks.New
+				HandleMessages(t0, obs.src, obs.out, &jsonconfig.Config{DisplayMessages: true, RecordMessages: true, MessageLogDirectory: "logs"})
+				obs.atReturn = append([]byte{}, obs.out.Buf...)
+				mcrt.Note(uint64(len(obs.atReturn)))
+				obs.returned = true
+			},
+			Check: func(x *mcrt.X) *mcrt.Failure {
+				want, _, _, fault := expected(stream)
+				if fault != "" {
+					return &mcrt.Failure{Kind: "sequential-framing-failed", Detail: fault}
+				}
+				obs := x.Data.(*obsT)
+				if len(x.Panics) > 0 {
+					p := x.Panics[0]
+					return &mcrt.Failure{Kind: "panic in " + p.Thread + ": " + first(p.Value) + " @" + p.Site, Detail: p.Stack}
+				}
+				failed := obs.sinks.Get("rtcm..txt").Failed
+				if !bytes.Equal(obs.out.Buf, want) {
+					return &mcrt.Failure{Kind: "output-is-not-the-valid-frames-in-order", Detail: fmt.Sprintf("%d display-log write(s) failed: output has %d of %d bytes; end=%s blocked=%v", failed, len(obs.out.Buf), len(want), x.End, x.Blocked)}
+				}
+				if got := obs.sinks.Get("rtcmfilter..rtcm").Buf; !bytes.Equal(got, want) {
+					return &mcrt.Failure{Kind: "record-differs-from-output", Detail: fmt.Sprintf("%d display-log write(s) failed", failed)}
+				}
+				if !obs.returned {
+					return &mcrt.Failure{Kind: "HandleMessages-did-not-return end=" + x.End, Detail: fmt.Sprint(x.Blocked)}
+				}
+				harness.Outcome(fmt.Sprintf("display write errors=%d", failed))
+				return nil
+			}})
+	}
+	// a writer that stalls while input keeps flowing: 24 distinct frames
 	var many []byte
-	for i := 0; i < 12; i++ {
-		many = append(many, ref.TypedFrame(1001+i, 2+i%3, func(k int) byte { return byte(16*i + k) })...)
+	for i := 0; i < 24; i++ {
+		many = append(many, ref.TypedFrame(1001+i, 2+i%3, func(k int) byte { return byte(8*i + k) })...)
 	}
 	for _, rcd := range []bool{false, true} {
 		rcd := rcd
-		scs = append(scs, &mcrt.Scenario{Name: fmt.Sprintf("stalled-writer 12-frames record=%v", rcd), Bound: 1, Horizon: 200000, Prune: true,
+		scs = append(scs, &mcrt.Scenario{Name: fmt.Sprintf("stalled-writer 24-frames record=%v", rcd), Bound: 1, Horizon: 200000, Prune: true,
 			Body: bodyG(many, false, rcd, false, []int{0}, true), Check: checkC10(many)})
 	}
 	return scs
@@ -381,11 +420,11 @@ func scenariosC11(tier string) []*mcrt.Scenario {
 			}})
 	}
 	var many []byte
-	for i := 0; i < 12; i++ {
-		many = append(many, ref.TypedFrame(1001+i, 2+i%3, func(k int) byte { return byte(16*i + k) })...)
+	for i := 0; i < 24; i++ {
+		many = append(many, ref.TypedFrame(1001+i, 2+i%3, func(k int) byte { return byte(8*i + k) })...)
 	}
 	wantMany, _, _, faultMany := expected(many)
-	scs = append(scs, &mcrt.Scenario{Name: "rtcmfilter stalled-writer 12-frames", Bound: 1, Horizon: 200000, Prune: true,
+	scs = append(scs, &mcrt.Scenario{Name: "rtcmfilter stalled-writer 24-frames", Bound: 1, Horizon: 200000, Prune: true,
 		Body: bodyG(many, false, false, false, []int{0}, true),
 		Check: func(x *mcrt.X) *mcrt.Failure {
 			if faultMany != "" {
